@@ -342,6 +342,7 @@ class MultiTypeMap(dict):
 
         funcs.reverse()
 
+        entries = []
         parents = []
         for group, (func, codes) in zip(results, funcs):
             tups = (
@@ -355,10 +356,15 @@ class MultiTypeMap(dict):
                 break
             else:
                 for tup in tups:
-                    self[tup] = func
+                    entries.append((tup, func))
             if not codes:
                 break
             parents = codes
+
+        # The entry for obj_t_tup itself is written last: as long as it is
+        # missing, any lookup resolves the whole tuple again.
+        for tup, func in reversed(entries):
+            self[tup] = func
 
         return True
 
